@@ -39,7 +39,7 @@ struct SdoEnv {
 };
 
 // ---- session bookkeeping shared by sdo_dn / sdo_up / sdo_wedge
-struct Live { Session s; bool active = false; const SdoObj *o = nullptr; std::vector<uint8_t> before; std::vector<uint8_t> truthAtStart; bool mustConfirm = false; bool mayRefuse = false; };
+struct Live { bool checked = true; Session s; bool active = false; const SdoObj *o = nullptr; std::vector<uint8_t> before; std::vector<uint8_t> truthAtStart; bool mustConfirm = false; bool mayRefuse = false; };
 
 static void decode_begin(const Op &o, const SdoDict &d, int nsrv, Live &L) {
     L = Live(); Session &s = L.s;
@@ -60,7 +60,7 @@ static void decode_begin(const Op &o, const SdoDict &d, int nsrv, Live &L) {
 }
 
 struct XferRun : SdoEnv {
-    Live L[2];
+    Live L[2]; bool wedge = false; bool recovered[2] = {true, true};   // C05: server idle by construction (after abort / reset / a completed checked transfer)
     XferRun(const Plan &p, Cov &c, bool vb) : SdoEnv(p, c, vb) {}
 
     void begin(const Op &o) {
@@ -71,6 +71,7 @@ struct XferRun : SdoEnv {
         if (other.active && !other.s.finished() && (other.s.srv == nl.s.srv || (other.o->idx == nl.o->idx && other.o->sub == nl.o->sub) || (other.o->kind == 1 && nl.o->kind == 1 && false))) return;
         if (L[k].active && !L[k].s.finished()) return;
         L[k] = nl; Live &l = L[k];
+        l.checked = !wedge || recovered[l.s.srv]; if (!l.checked) cov.hit("history-session"); else if (wedge) { cov.hit("clean-transfer-after-recovery"); nontrivial = true; }
         l.before = w.bytes(0, l.o->idx, l.o->sub); l.truthAtStart = sdo_view(w, 0, *l.o);
         const SdoObj &ob = *l.o; const Session &s = l.s;
         if (s.upload) l.mustConfirm = ob.rd && ob.kind != 3;
@@ -91,6 +92,7 @@ struct XferRun : SdoEnv {
         std::vector<uint8_t> truth = s.upload ? l.truthAtStart : std::vector<uint8_t>();
         std::vector<Frame> resp = exchange(s.srv, f, copies);
         s.onResponses(resp, copies, truth);
+        if (!l.checked) { recovered[s.srv] = false; if (!s.viol.empty()) { s.viol.clear(); s.ph = Session::P_DONE; } if (s.finished()) l.active = false; return; }
         if (!s.viol.empty()) { fail(std::string(s.upload ? "up/" : "dn/") + s.viol, s.detail + " (object " + hex4(s.idx) + ":" + std::to_string(s.sub) + " mode " + std::to_string(s.mode) + " step " + std::to_string(s.stepsTaken) + ")"); return; }
         // isolation: only the target object of this session may have changed
         std::vector<uint8_t> img2 = w.image(0); auto rg = objRange(s.idx, s.sub);
@@ -131,6 +133,154 @@ struct XferRun : SdoEnv {
     }
     static std::string hex8(uint32_t x) { char b[12]; snprintf(b, sizeof b, "%08X", x); return b; }
 
+    // ---- raw frame to a server: safety only (C05 history, C04 recovery)
+    void garbage(int srv, Frame f) {
+        f.id = rxid(srv); size_t m = w.mark(); w.rx(0, f); w.canproc(0); cov.frames_in++;
+        for (size_t i = m; i < w.evs.size(); i++) { const Ev &e = w.evs[i]; if (e.kind == EV_TX) { cov.frames_out++; if (e.f.id != txid(srv)) fail("foreign-tx", "frame on another COB-ID while serving an SDO request: " + e.f.str()); } else if (e.kind == EV_CANRECEIVE) fail("sdo-to-app", "SDO request handed to the application callback"); }
+        if (w.s[0].txInOp > 127 + CO_TPDO_N + 2) fail("tx-bound", "more than the bounded number of frames in one processing step");
+        for (int k = 0; k < 2; k++) if (L[k].active && L[k].s.srv == srv) L[k].active = false;   // whatever was open on this server is no longer tracked
+        recovered[srv] = (f.d[0] == 0x80);      // only a client abort leaves the server idle by construction
+        // reach: abstract server state through the public structure (coverage only, never an oracle)
+        CO_SDO *sv = &w.N(0)->Sdo[srv]; Hash h; h.u64((uint64_t)sv->Blk.State); h.u64(sv->Obj != 0); h.u64(sv->Buf.Num == 0 ? 0 : sv->Buf.Num < 7 ? 1 : sv->Buf.Num < 883 ? 2 : 3); h.u64(sv->Seg.TBit); h.u64(sv->Seg.Num > 0); h.u64(sv->Blk.Len > 0);
+        cov.states.insert(h.h); Hash h2 = h; h2.u64(f.d[0] >> 5); cov.pairs.insert(h2.h); trace.u64(h2.h);
+    }
+    // ---- C04: one request under test
+    enum SrvState { ST_IDLE, ST_SEG_DN, ST_SEG_UP, ST_BLK_DN, ST_BLK_DN_END, ST_BLK_UP_INIT, ST_BLK_UP_ACK, ST_BLK_UP_FIN };
+    SrvState stateOf(int srv, Live **lp) {
+        *lp = nullptr;
+        for (int k = 0; k < 2; k++) if (L[k].active && !L[k].s.finished() && L[k].s.srv == srv && L[k].s.stepsTaken > 0) {
+            *lp = &L[k]; const Session &s = L[k].s;
+            switch (s.ph) { case Session::P_SEG: return s.upload ? ST_SEG_UP : ST_SEG_DN; case Session::P_BLK_SEGS: return ST_BLK_DN; case Session::P_BLK_END: return ST_BLK_DN_END; case Session::P_BLK_START: return ST_BLK_UP_INIT;
+                          case Session::P_BLK_ACK: return ST_BLK_UP_ACK; case Session::P_BLK_FIN: return ST_BLK_UP_FIN; default: return ST_IDLE; }
+        }
+        return ST_IDLE;
+    }
+    bool metaOf(uint16_t idx, uint8_t sub, SdoObj &m) {
+        const ObjSpec *o = w.ospec(0, idx, sub); if (!o) return false;
+        m.idx = idx; m.sub = sub; m.rd = (o->flags & CO_OBJ_____R_) != 0; m.wr = (o->flags & CO_OBJ______W) != 0; m.nodeid = (o->flags & CO_OBJ__N____) != 0;
+        m.kind = o->type == T_DOMAIN ? 1 : o->type == T_STRING ? 2 : o->type == T_USER ? 3 : (o->type == T_U8 || o->type == T_U16 || o->type == T_U32) ? 0 : 4;
+        m.size = o->type == T_DOMAIN || o->type == T_STRING ? (uint32_t)o->bytes.size() : o->type == T_USER ? 4 : (uint32_t)ot_width(o->type, sub);
+        return true;
+    }
+    bool indexExists(uint16_t idx) { for (auto &sp : w.s[0].specs) if (sp.idx == idx) return true; return false; }
+    void req(const Op &o) {
+        int srv = (int)(o.arg(0) % nsrv); Frame f(0, 8, o.b); Live *lp; SrvState st = stateOf(srv, &lp);
+        uint8_t cmd = f.d[0]; uint16_t idx = f.u16(1); uint8_t sub = f.d[3]; uint8_t ccs = cmd >> 5;
+        std::vector<uint8_t> img = w.image(0);
+        SdoObj m; bool exists = metaOf(idx, sub, m); std::vector<uint8_t> viewBefore = exists ? sdo_view(w, 0, m) : std::vector<uint8_t>();
+        std::vector<Frame> resp = exchange(srv, f, 1);
+        if (lp) lp->active = false;
+        std::string ctx = " [state " + std::to_string(st) + " request " + f.str() + "]";
+        Hash h; h.u64((uint64_t)st); h.u64(ccs); h.u64(exists ? 2 : indexExists(idx) ? 1 : 0); h.u64(cmd & 0x1F); cov.states.insert(h.h); trace.u64(h.h);
+        { Hash c; c.u64((uint64_t)st); c.u64(ccs); c.u64(exists ? 2 : indexExists(idx) ? 1 : 0); cov.pairs.insert(c.h); }
+        if (st != ST_IDLE) nontrivial = true;
+        if (cmd == 0x80) { cov.hit("client-abort"); return; }           // how an abort is acknowledged is not constrained
+        bool changed = w.image(0) != img;
+        auto isAbort = [&](const Frame &r) { return r.d[0] == 0x80; };
+        auto abortWith = [&](uint32_t code, const char *rule) {
+            if (resp.size() != 1) { fail(std::string("req/count-") + rule, std::to_string(resp.size()) + " responses" + ctx); return; }
+            if (!isAbort(resp[0])) { fail(std::string("req/not-refused-") + rule, "expected abort " + hex8(code) + ", got " + resp[0].str() + ctx); return; }
+            if (code && resp[0].u32(4) != code) { fail(std::string("req/abort-code-") + rule, "expected abort " + hex8(code) + ", got " + hex8(resp[0].u32(4)) + ctx); return; }
+            if (resp[0].u16(1) != idx || resp[0].d[3] != sub) { if (st == ST_IDLE) { fail("req/abort-mux", "abort names " + resp[0].str() + ctx); return; } }
+            if (changed) fail(std::string("req/refused-but-changed-") + rule, "a refused request changed object storage" + ctx);
+            cov.hit(std::string("verdict-") + rule);
+        };
+        // (ii) any positive answer to an initiate request concerns the object named in the request
+        bool isInit = (ccs == 1) || (ccs == 2) || (ccs == 6 && !(cmd & 1)) || (ccs == 5 && (cmd & 3) == 0);
+        bool inBlockDn = st == ST_BLK_DN || st == ST_BLK_DN_END;     // inside a block download every frame but the end request is a segment by definition
+        if (isInit && !inBlockDn && resp.size() == 1 && !isAbort(resp[0])) {
+            const Frame &r = resp[0]; uint8_t scs = r.d[0] >> 5;
+            bool positiveInit = (ccs == 1 && scs == 3) || (ccs == 2 && scs == 2) || (ccs == 6 && (r.d[0] & 0xE3) == 0xA0) || (ccs == 5 && (r.d[0] & 0xE1) == 0xC0); (void)scs;
+            if (positiveInit) {
+                if (r.u16(1) != idx || r.d[3] != sub) { fail("req/positive-wrong-mux", "positive response " + r.str() + " names another object" + ctx); return; }
+                if (!exists) { fail("req/positive-for-absent-object", "positive response " + r.str() + " for an object that does not exist" + ctx); return; }
+                if (ccs == 2) { // upload: data or size must be the named object's
+                    if (!m.rd) { fail("req/positive-writeonly", "upload of a write-only object answered " + r.str() + ctx); return; }
+                    if (r.d[0] & 2) { uint32_t n = (r.d[0] & 1) ? 4 - ((r.d[0] >> 2) & 3) : (uint32_t)viewBefore.size(); if (n != viewBefore.size() || memcmp(r.d + 4, viewBefore.data(), std::min<size_t>(n, 4)) != 0) { fail("req/upload-wrong-data", "expedited upload answered " + r.str() + " but the object holds " + hexstr(viewBefore) + ctx); return; } }
+                    else if ((r.d[0] & 1) && r.u32(4) != viewBefore.size()) { fail("req/upload-wrong-size", "segmented upload announces " + std::to_string(r.u32(4)) + " bytes, object has " + std::to_string(viewBefore.size()) + ctx); return; }
+                }
+                if (ccs == 5 && (r.d[0] & 2) && r.u32(4) != viewBefore.size()) { fail("req/upload-wrong-size", "block upload announces " + std::to_string(r.u32(4)) + " bytes, object has " + std::to_string(viewBefore.size()) + ctx); return; }
+                if (ccs == 5 && !m.rd) { fail("req/positive-writeonly", "block upload of a write-only object answered " + r.str() + ctx); return; }
+                if ((ccs == 1 || ccs == 6) && !m.wr) { fail("req/positive-readonly", "download to a read-only object answered " + r.str() + ctx); return; }
+                if (ccs == 1 && (cmd & 2)) { // expedited download confirmed: the named object must now hold the data
+                    uint32_t n = (cmd & 1) ? 4 - ((cmd >> 2) & 3) : m.size; std::vector<uint8_t> now = sdo_view(w, 0, m);
+                    if (m.kind != 3 && (now.size() < n || memcmp(now.data(), f.d + 4, std::min<uint32_t>(n, 4)) != 0)) { fail("req/download-confirmed-not-performed", "expedited download confirmed but the object holds " + hexstr(now) + ctx); return; }
+                    if (m.kind == 3) { fail("req/download-confirmed-type-error", "download confirmed although the object's type refuses writes" + ctx); return; }
+                    // nothing but the named object changed
+                    auto rg = objRange(idx, sub); std::vector<uint8_t> img2 = w.image(0); for (size_t i = 0; i < img.size(); i++) if (img[i] != img2[i] && (i < rg.first || i >= rg.first + rg.second)) { fail("req/other-object-changed", "expedited download changed another object" + ctx); return; }
+                }
+                cov.hit("positive-init");
+            }
+        }
+        if (st == ST_IDLE) {
+            cov.hit("idle-request");
+            bool rsv = false;   // reserved bits set: verdict not constrained (count still is)
+            // expected refusal by object / sub-index / access (CiA precedence)
+            auto lookupVerdict = [&](bool write) -> uint32_t { if (!exists) return indexExists(idx) ? 0x06090011u : 0x06020000u; if (write && !m.wr) return 0x06010002u; if (!write && !m.rd) return 0x06010001u; return 0; };
+            if (resp.size() != 1) { fail("req/count-idle", std::to_string(resp.size()) + " responses to a request in idle state" + ctx); return; }
+            if (ccs == 1) {
+                rsv = (cmd & 0x10) != 0 || (!(cmd & 2) && (cmd & 0x0C)) || ((cmd & 2) && !(cmd & 1) && (cmd & 0x0C)); if (rsv) { cov.hit("reserved-bits"); return; }
+                uint32_t vd = lookupVerdict(true); if (vd) { abortWith(vd, vd == 0x06020000 ? "no-object" : vd == 0x06090011 ? "no-subindex" : "read-only"); return; }
+                bool exped = cmd & 2; bool sz = cmd & 1; uint32_t width = exped ? (sz ? 4 - ((cmd >> 2) & 3) : 0) : (sz ? f.u32(4) : 0);
+                if (sz && width == 0) sz = false;     // an indicated size of 0 may be read as 'not indicated'
+                if (sz && width > m.size && m.kind != 2) { abortWith(0x06070012, "length-high"); return; }
+                if (sz && width < m.size) { if (m.kind == 1 && !isAbort(resp[0])) { cov.hit("short-domain-write-accepted"); return; } abortWith(0x06070013, "length-low"); return; }
+                if (exped && !sz && m.size > 4) { abortWith(0, "expedited-too-big"); return; }
+                if (m.kind == 3) { if (exped) abortWith(0x06060000u + (uint32_t)plan.c("usercode", 0x10), "type-code"); return; }
+                if (m.kind == 2) { abortWith(0, "string-write"); return; }
+                if (isAbort(resp[0])) { fail("req/valid-refused", "valid download initiate refused with " + hex8(resp[0].u32(4)) + ctx); return; }
+                if (resp[0].d[0] != 0x60) { fail("req/dn-init-cmd", resp[0].str() + ctx); return; }
+                cov.hit("verdict-accepted"); return;
+            }
+            if (ccs == 2) {
+                if (cmd != 0x40) { cov.hit("reserved-bits"); return; }
+                uint32_t vd = lookupVerdict(false); if (vd) { abortWith(vd, vd == 0x06020000 ? "no-object" : vd == 0x06090011 ? "no-subindex" : "write-only"); return; }
+                if (m.kind == 3) { abortWith(0x06060000u + (uint32_t)plan.c("usercode", 0x10), "type-code"); return; }
+                if (isAbort(resp[0])) { fail("req/valid-refused", "valid upload initiate refused with " + hex8(resp[0].u32(4)) + ctx); return; }
+                if ((resp[0].d[0] >> 5) != 2) { fail("req/up-init-cmd", resp[0].str() + ctx); return; }
+                if (changed) fail("req/upload-changed-object", "an upload request changed object storage" + ctx);
+                cov.hit("verdict-accepted"); return;
+            }
+            if (ccs == 0 || ccs == 3) { abortWith(0, ccs == 0 ? "segment-without-transfer" : "upload-segment-without-transfer"); return; }
+            if (ccs == 6) {
+                if (cmd & 1) { abortWith(0, "block-end-without-transfer"); return; }
+                if (cmd & 0x18) { cov.hit("reserved-bits"); return; }
+                uint32_t vd = lookupVerdict(true); if (vd) { abortWith(vd, vd == 0x06020000 ? "no-object" : vd == 0x06090011 ? "no-subindex" : "read-only"); return; }
+                bool sz = cmd & 2; uint32_t width = sz ? f.u32(4) : 0; if (sz && width == 0) sz = false;
+                if (sz && width > m.size && m.kind != 2) { abortWith(0x06070012, "length-high"); return; }
+                if (sz && width < m.size) { if (!isAbort(resp[0])) { cov.hit("short-block-write-accepted"); return; } abortWith(0x06070013, "length-low"); return; }
+                if (m.kind == 2 || m.kind == 3) return;   // refusal may come at any later stage
+                if (isAbort(resp[0])) { fail("req/valid-refused", "valid block download initiate refused with " + hex8(resp[0].u32(4)) + ctx); return; }
+                if ((resp[0].d[0] & 0xFB) != 0xA0 || resp[0].d[4] < 1 || resp[0].d[4] > 127) { fail("req/blkdn-init-resp", resp[0].str() + ctx); return; }
+                cov.hit("verdict-accepted"); return;
+            }
+            if (ccs == 5) {
+                if ((cmd & 3) != 0) { abortWith(0, "block-upload-subcommand-without-transfer"); return; }
+                if (cmd & 0x18) { cov.hit("reserved-bits"); return; }
+                uint32_t vd = lookupVerdict(false); if (vd) { abortWith(vd, vd == 0x06020000 ? "no-object" : vd == 0x06090011 ? "no-subindex" : "write-only"); return; }
+                if (f.d[4] < 1 || f.d[4] > 127) { abortWith(0x05040002, "block-size"); return; }
+                if (m.kind == 3) return;
+                if (isAbort(resp[0])) { fail("req/valid-refused", "valid block upload initiate refused with " + hex8(resp[0].u32(4)) + ctx); return; }
+                if ((resp[0].d[0] & 0xF9) != 0xC0) { fail("req/blkup-init-resp", resp[0].str() + ctx); return; }
+                cov.hit("verdict-accepted"); return;
+            }
+            abortWith(0x05040001, "unknown-command"); return;
+        }
+        // ---- non-idle states
+        cov.hit(std::string("nonidle-request-state-") + std::to_string(st));
+        if (cmd == 0xA1 && (st == ST_BLK_UP_ACK || st == ST_BLK_UP_FIN || st == ST_BLK_UP_INIT)) { if (resp.size() > 1) fail("req/count-blkup-end", "responses to an end-of-block-upload confirmation" + ctx); return; }
+        if (st == ST_BLK_DN || st == ST_BLK_DN_END && cmd != 0xC1 && (cmd & 0xE3) != 0xC1) { if (resp.size() > 1) fail("req/count-in-block", std::to_string(resp.size()) + " responses to a frame inside a block download" + ctx); return; }
+        if (ccs == 3 && (cmd & 0x0F)) { cov.hit("reserved-bits"); if (resp.size() != 1) fail("req/count-nonidle", std::to_string(resp.size()) + " responses" + ctx); return; }
+        if ((st == ST_BLK_UP_ACK || st == ST_BLK_UP_FIN) && ccs == 5 && (cmd & 3) == 2) { if (resp.size() > 127) fail("req/count-blkup", "more than 127 segments" + ctx); return; }
+        if (st == ST_BLK_UP_FIN && cmd == 0xA1) { if (!resp.empty()) fail("req/count-blkup-end", "response to the end-of-block-upload confirmation" + ctx); return; }
+        if (st == ST_BLK_UP_INIT && cmd == 0xA3) { if (resp.empty() || resp.size() > 127) fail("req/count-blkup-start", std::to_string(resp.size()) + " segments after start" + ctx); return; }
+        if (st == ST_BLK_UP_ACK || st == ST_BLK_UP_FIN || st == ST_BLK_UP_INIT || st == ST_BLK_DN_END) { if (resp.size() != 1 && !(st == ST_BLK_DN_END)) fail("req/count-nonidle", std::to_string(resp.size()) + " responses" + ctx); else if (resp.size() > 1) fail("req/count-nonidle", std::to_string(resp.size()) + " responses" + ctx); return; }
+        if (resp.size() != 1) { fail("req/count-nonidle", std::to_string(resp.size()) + " responses to a request while a segmented transfer is open" + ctx); return; }
+        if (st == ST_SEG_DN && ccs == 0) { if (((cmd >> 4) & 1) != lp->s.toggle) abortWith(0x05030000, "toggle"); else if (isAbort(resp[0])) { /* content may be refused */ } else if ((resp[0].d[0] & 0xEF) != 0x20 || ((resp[0].d[0] >> 4) & 1) != lp->s.toggle) fail("req/dn-seg-resp", resp[0].str() + ctx); return; }
+        if (st == ST_SEG_UP && ccs == 3) { if (((cmd >> 4) & 1) != lp->s.toggle) abortWith(0x05030000, "toggle"); else if ((resp[0].d[0] & 0xE0) != 0 || ((resp[0].d[0] >> 4) & 1) != lp->s.toggle) fail("req/up-seg-resp", resp[0].str() + ctx); return; }
+        // anything else during an open segmented transfer: an abort (any code) or the correct start of the new transfer (checked above)
+    }
+
     Verdict run() {
         setup();
         for (opi = 0; opi < (int)plan.ops.size() && v.ok; opi++) {
@@ -138,6 +288,10 @@ struct XferRun : SdoEnv {
             if (o.k == "begin") begin(o);
             else if (o.k == "step") step((int)o.arg(0));
             else if (o.k == "finish") { int guard = 6000; while (v.ok && L[o.arg(0) & 1].active && !L[o.arg(0) & 1].s.finished() && guard-- > 0) step((int)o.arg(0)); if (guard <= 0) fail("endless-transfer", "transfer did not end within 6000 client frames"); }
+            else if (o.k == "req") req(o);
+            else if (o.k == "g") { Frame f(0, (uint8_t)o.arg(1, 8), o.b); garbage((int)(o.arg(0) % nsrv), f); }
+            else if (o.k == "abort") { int srv = (int)(o.arg(0) % nsrv); Frame f(0, 8, {0x80, 0, 0, 0, 0, 0, 0, 0}); garbage(srv, f); }
+            else if (o.k == "resetcom") { size_t m = w.mark(); w.rx(0, Frame(0, 2, {(uint8_t)(o.arg(0) ? 129 : 130), 0})); w.canproc(0); L[0].active = L[1].active = false; recovered[0] = recovered[1] = true; bool boot = false; for (auto &fr : w.txSince(m)) boot |= fr.id == 0x700u + nodeId; if (!boot) fail("reset/no-bootup", "no boot-up frame after NMT reset"); cov.hit("reset-communication"); }
             else if (o.k == "tick") w.tick(0, (uint64_t)o.arg(0));
             else if (o.k == "noise") { Frame f((uint32_t)o.arg(0), 8, o.b); size_t m = w.mark(); w.rx(0, f); w.canproc(0); (void)m; }
             else if (o.k == "read") { uint32_t val = 0; const SdoObj &ob = d.objs[(size_t)(o.arg(0) % (int64_t)d.objs.size())]; if (ob.kind == 0 && ob.size == 4) (void)CODictRdLong(&w.N(0)->Dict, CO_DEV(ob.idx, ob.sub), &val); }
@@ -180,8 +334,66 @@ static Plan gen_xfer(Rng &r, bool thorough, bool upload) {
     return p;
 }
 
+
+// ---- C04 generator: [prefix that opens a transfer on a server]  request-under-test  (client abort)
+static Frame gen_request(Rng &r, const SdoDict &d) {
+    Frame f; f.dlc = 8;
+    static const uint8_t cmds[] = {0x40, 0x40, 0x40, 0x23, 0x27, 0x2B, 0x2F, 0x22, 0x21, 0x20, 0x00, 0x10, 0x01, 0x0D, 0x60, 0x70, 0xC0, 0xC2, 0xC6, 0xC1, 0xA0, 0xA4, 0xA3, 0xA2, 0xA1, 0x80, 0xE0, 0x9F, 0x81, 0xFF};
+    f.d[0] = r.chance(3, 4) ? cmds[r.below(sizeof cmds)] : r.byte();
+    int k = (int)r.below(12);
+    static const uint16_t others[] = {0x1000, 0x1001, 0x1018, 0x1200, 0x1017, 0x1400, 0x2FFF, 0x0000, 0xFFFF, 0x1201};
+    if (k < 7) { const SdoObj &o = d.objs[r.below((uint32_t)d.objs.size())]; f.d[1] = (uint8_t)o.idx; f.d[2] = (uint8_t)(o.idx >> 8); f.d[3] = o.sub; }
+    else if (k < 9) { const SdoObj &o = d.objs[r.below((uint32_t)d.objs.size())]; f.d[1] = (uint8_t)o.idx; f.d[2] = (uint8_t)(o.idx >> 8); f.d[3] = (uint8_t)(o.sub + 10 + r.below(200)); }
+    else if (k < 11) { uint16_t i = others[r.below(10)]; f.d[1] = (uint8_t)i; f.d[2] = (uint8_t)(i >> 8); f.d[3] = (uint8_t)r.below(5); }
+    else { f.d[1] = r.byte(); f.d[2] = r.byte(); f.d[3] = r.byte(); }
+    int m = (int)r.below(4);
+    if (m == 0) for (int i = 4; i < 8; i++) f.d[i] = r.byte();
+    else if (m == 1) { uint32_t sz = r.pick<uint32_t>({0, 1, 2, 3, 4, 5, 7, 8, 20, 889, 4000, 4001, 0x10000}); f.d[4] = (uint8_t)sz; f.d[5] = (uint8_t)(sz >> 8); f.d[6] = (uint8_t)(sz >> 16); f.d[7] = (uint8_t)(sz >> 24); }
+    else if (m == 2) { f.d[4] = r.pick<uint8_t>({0, 1, 64, 127, 128, 255}); }
+    return f;
+}
+static Plan gen_req(Rng &r, bool thorough) {
+    Plan p; gen_cfg(r, p); p.cfg["usercode"] = r.range(1, 0xFF);
+    SdoDict d; d.build(p, 1);
+    int rounds = (int)r.range(1, thorough ? 10 : 6);
+    for (int i = 0; i < rounds; i++) {
+        int64_t srv = r.below(2);
+        if (r.chance(1, 2)) { Op b = gen_begin(r, 0, r.chance(1, 2), thorough); b.a[1] = srv; b.a[5] = 0; if (r.chance(2, 3)) b.a[2] = r.range(14, 16); b.b.clear(); p.ops.push_back(b); int n = (int)r.range(1, 6); for (int j = 0; j < n; j++) p.ops.push_back(Op("step", {0})); }
+        Frame f = gen_request(r, d);
+        p.ops.push_back(Op("req", {srv}, std::vector<uint8_t>(f.d, f.d + 8)));
+        p.ops.push_back(Op("abort", {srv}));
+    }
+    return p;
+}
+// ---- C05 generator: arbitrary history, then [abort | reset communication], then a clean transfer
+static Plan gen_wedge(Rng &r, bool thorough) {
+    Plan p; gen_cfg(r, p);
+    SdoDict d; d.build(p, 1);
+    int64_t srv = r.below(2);
+    int n = (int)r.range(0, thorough ? 120 : 50);
+    for (int i = 0; i < n; i++) {
+        int c = (int)r.below(10);
+        if (c < 6) { Frame f = r.chance(3, 4) ? gen_request(r, d) : sdo_garbage(r, d); p.ops.push_back(Op("g", {r.chance(5, 6) ? srv : (int64_t)r.below(2), (int64_t)f.dlc}, std::vector<uint8_t>(f.d, f.d + 8))); }
+        else if (c < 8) { Op b = gen_begin(r, 0, r.chance(1, 2), thorough); b.a[1] = srv; p.ops.push_back(b); int k = (int)r.range(0, 8); for (int j = 0; j < k; j++) p.ops.push_back(Op("step", {0})); if (r.chance(1, 2)) { Frame f = sdo_garbage(r, d); p.ops.push_back(Op("g", {srv, 8}, std::vector<uint8_t>(f.d, f.d + 8))); } }
+        else if (c == 8) p.ops.push_back(Op("tick", {r.range(1, 20)}));
+        else { Frame f = sdo_garbage(r, d); p.ops.push_back(Op("g", {(int64_t)r.below(2), (int64_t)f.dlc}, std::vector<uint8_t>(f.d, f.d + 8))); }
+    }
+    if (r.chance(2, 3)) p.ops.push_back(Op("abort", {srv})); else p.ops.push_back(Op("resetcom", {(int64_t)r.chance(1, 4)}));
+    int t = (int)r.range(1, 3);
+    for (int i = 0; i < t; i++) {
+        // T: a transfer that must succeed: readable/writable plain objects with a length the server has to accept
+        bool up = r.chance(1, 2); int64_t obj = up ? r.pick<int64_t>({1, 2, 3, 4, 5, 6, 7, 10, 12, 14, 15, 16, 17, 19, 20, 21}) : r.pick<int64_t>({1, 2, 3, 4, 5, 6, 7, 8, 9, 11, 13, 14, 15, 16, 18, 19});
+        Op b("begin", {0, srv, obj, up ? 1 : 0, (int64_t)r.below(3), 1, (int64_t)r.below(2), 100000, (int64_t)r.below(1000), r.pick<int64_t>({127, 1, 7, 64})});
+        p.ops.push_back(b); p.ops.push_back(Op("finish", {0}));
+    }
+    return p;
+}
+
 Reg r02({"sdo_dn", "C02", [](Rng &r, bool t) { return gen_xfer(r, t, false); }, [](const Plan &p, Cov &c, bool vb) { XferRun x(p, c, vb); return x.run(); }, nullptr, nullptr});
 Reg r03({"sdo_up", "C03", [](Rng &r, bool t) { return gen_xfer(r, t, true); }, [](const Plan &p, Cov &c, bool vb) { XferRun x(p, c, vb); return x.run(); }, nullptr, nullptr});
+
+Reg r04({"sdo_req", "C04", gen_req, [](const Plan &p, Cov &c, bool vb) { XferRun x(p, c, vb); return x.run(); }, nullptr, nullptr});
+Reg r05({"sdo_wedge", "C05", gen_wedge, [](const Plan &p, Cov &c, bool vb) { XferRun x(p, c, vb); x.wedge = true; return x.run(); }, nullptr, nullptr});
 
 } // namespace
 } // namespace sim
